@@ -92,11 +92,14 @@ WRITE = {"MKD", "RMD", "DELE", "RNFR", "RNTO", "STOR", "APPE"}
 
 def check_wire(ctx, case):
     table, program, backend, tape = case
-    users = [dict(login=None, password=None, home="/", perms=[tuple(e) for e in table] or [("/", True, True)])]
+    users = [dict(login=None, password=None, home="/", perms=[tuple(e) for e in table] or [("/", True, True)]),
+             # a second account with the opposite rights on the same entries: what one account may do under a path says
+             # nothing about the other, also when both are used on one control connection
+             dict(login="mirror", password="pw", home="/", perms=[(p_, not r_, not w_) for p_, r_, w_ in (tuple(e) for e in table)] or [("/", True, False)])]
     # log in first with an ordinary generated step replaced by a forced USER
     program = [(0, 0, 0, 0, 0)] + list(program)
     history = walk.concretise(program + ["pwd"], users=users, tree=TREE, profile="perm", pwd_after=("CWD", "CDUP"),
-                              user_names=["anonymous"])
+                              user_names=["anonymous", "anonymous", "anonymous", "mirror"], passwords=["pw", "pw", "bad"])
     recs = []
     stats = dict(denied=0, denied_alias=0)
 
